@@ -136,17 +136,27 @@ def run(ctx):
             toks = T.render(s)
             for i in range(len(toks) - 3):
                 if re.match(r"^[A-Za-z_]\w*$", toks[i]) and toks[i + 1] == "[" and re.match(r"^\d+$", toks[i + 2]) and toks[i + 3] == "]":
-                    # enclosing groups of the index expression
-                    stack = []
-                    for k in range(i):
-                        if toks[k] in ("{", "(", "[", "«"):
-                            stack.append(k)
-                        elif toks[k] in ("}", ")", "]", "»") and stack:
-                            stack.pop()
-                    in_one_arm = any(toks[k] == "{" and toks[max(0, k - 2):k] == ["1", "=>"] for k in stack)
-                    in_len_match = any(toks[k] == "{" and toks[max(0, k - 7):k] == ["match", "__outer", ".", "len", "(", ")"][-7:] or toks[k] == "{" and " ".join(toks[max(0, k - 6):k]) == "match __outer . len ( )" for k in stack)
-                    ok = in_one_arm and in_len_match and toks[i] == "__outer" and toks[i + 2] == "0"
-                    ctx.ob("C07.H.template-index", b.key, "%s[%s]" % (toks[i], toks[i + 2]), ok, "constant index in a template must sit in the `1 =>` arm of `match __outer.len()`")
+                    # the match arm that contains the index expression: nearest `=>` in the same or an
+                    # enclosing group, and the pattern in front of it
+                    depth = 0
+                    need_exit = False
+                    pats = []
+                    for k in range(i - 1, -1, -1):
+                        if toks[k] in ("}", ")", "]", "»"):
+                            depth += 1
+                        elif toks[k] in ("{", "(", "[", "«"):
+                            if depth > 0:
+                                depth -= 1
+                            else:
+                                need_exit = False      # left the group: the next `=>` belongs to an enclosing arm
+                        elif toks[k] == "=>" and depth == 0 and not need_exit:
+                            pats.append(" ".join(toks[max(0, k - 40):k]))
+                            need_exit = True
+                    one_arm = any(re.search(r"(^|[,{}] )1$", p) for p in pats)
+                    slice_arm = any(re.search(r"\[ (?!\])[^,]*\]$", p) for p in pats)
+                    txt_pat = " || ".join(p[-40:] for p in pats)
+                    ok = (one_arm or slice_arm) and toks[i] == "__outer" and toks[i + 2] == "0"
+                    ctx.ob("C07.H.template-index", b.key, "%s[%s]" % (toks[i], toks[i + 2]), ok, "constant index in a template must sit in an arm that fixes the length (`1 =>` of `match __outer.len()` or a one-element slice pattern); arm pattern: …%s" % txt_pat[-80:])
     # S: Initializer's expect branch and CheckMissing's check have the same generator condition
     ini = ctx.fn(common.TOK % "field::Initializer<'_>")
     chk = ctx.fn(common.TOK % "field::CheckMissing<'_>")
